@@ -107,6 +107,13 @@ def do_read(a, kind):
     elif kind == "getelem":
         if len(a) and a.lengths[0] > 0:
             a[0, 0]
+    elif kind == "pairs":                          # pairwise element read; the index arrays belong to the caller
+        rows = [i for i, l in enumerate(a.lengths.tolist()) if l > 0][:3]
+        if rows:
+            R, C = np.array(rows, dtype=np.int64), np.full(len(rows), -1, dtype=np.int64)
+            a[R, C]
+            if R.tolist() != rows or C.tolist() != [-1] * len(rows):
+                raise RuntimeError("index arrays modified")
     elif kind == "rowcol":
         a[:, 0:1]
     elif kind == "any":
